@@ -41,7 +41,7 @@ def main(ctx):
     if not ok:
         raise vf.CheckerBroken("model does not build: " + out[-1500:])
     bindir = ctx.harness(GROUP, profile="release", bins=["c03"])
-    cases = ctx.gen_exec(bindir, "c03", ctx.n(1600, 24000), inputs=ctx.replay_inputs())
+    cases = ctx.gen_exec(bindir, "c03", ctx.n(1600, 16000), inputs=ctx.replay_inputs())
     ctx.extra["requests_evaluated"] = sum(c["term"].count("mkreq ") + (112 if "small_reqs 3" in c["term"] else 0) for c in cases)
     ctx.exhaustive = False
     ctx.correspond("create_plan", GROUP, REQ, cases, show="show", shard=ctx.n(150, 1600),
